@@ -6,6 +6,7 @@ from sa import rl
 from sa.cfg import cfg_of
 from sa.dataflow import call_name, dotted, expand, origins
 from sa.fold import Folder, Unknown, module_const
+from sa.interval import ISet
 from sa.layout import WriterExec, fmt_terms
 from sa.loader import AnalysisError, param_names
 
@@ -452,6 +453,75 @@ def c18_7(ctx):
     return out
 
 
+def c18_8(ctx):
+    """hashed_items: the range F = N*M is computed from the number N of items, and exactly N values are produced -- every
+    iteration of the loop over the same item list appends one hashed value (an item skipped after N was taken makes the
+    serialised count disagree with the range the elements were hashed into)"""
+    spec = "compactfilter:hashed_items"
+    mod, fn = rl.get(ctx, spec)
+    cfg = cfg_of(fn)
+    counted = set()
+    for n in cfg.stmts(("stmt",)):
+        a = n.ast
+        if isinstance(a, ast.Assign):
+            for x in ast.walk(a.value):
+                if isinstance(x, ast.Call) and call_name(x) == "len" and x.args and isinstance(x.args[0], ast.Name):
+                    counted.add(x.args[0].id)
+    loops = [lp for lp in cfg.loops.values() if isinstance(lp.stmt, ast.For) and isinstance(lp.stmt.iter, ast.Name)]
+    if not counted or not loops:
+        return [ctx.err(spec, "the count N = len(<items>) / the loop over the items were not recognised", fn, mod)]
+    out = []
+    for lp in loops:
+        it = lp.stmt.iter.id
+        if it not in counted:
+            out.append(ctx.err(spec, "the loop runs over `%s` but N is the length of %s" % (it, sorted(counted)), lp.stmt, mod))
+            continue
+        apps = {n.id for n in cfg.nodes if n.ast is not None and n.id in lp.body and isinstance(n.ast, ast.Expr) and isinstance(n.ast.value, ast.Call)
+                and call_name(n.ast.value) in ("append", "add") and any(isinstance(c, ast.Call) and call_name(c) == "hash_to_range" for c in ast.walk(n.ast))}
+        if not apps:
+            out.append(ctx.err(spec, "the statement that adds hash_to_range(...) to the result was not found in the loop", lp.stmt, mod))
+            continue
+        starts = []
+        for a, label in lp.body_entry:
+            starts += [b for b, l in cfg.succ[a] if l == label]
+        r = cfg.reach(starts, blocked=apps, within=set(lp.body) | {lp.head})
+        if lp.head in r:
+            p = cfg.path(starts, [lp.head], blocked=apps)
+            out.append(ctx.bad(spec, "an iteration over `%s` can end without adding a value (path %s) although N = len(%s) was taken before the loop: the filter "
+                                     "stores fewer than N elements hashed into [0, N*M), so they are looked up in the wrong range" % (it, cfg.fmt_path(p or []), it),
+                               lp.stmt, mod, key="count-agrees"))
+        else:
+            out.append(ctx.ok(spec, "every iteration over `%s` adds one hash_to_range value; N = len(%s)" % (it, it), lp.stmt, mod, key="count-agrees"))
+    return out
+
+
+def c18_9(ctx):
+    """BloomFilter.__init__ accepts every size 1..36000 bytes and every function count 1..50 (the BIP37 limits): a constructor
+    that refuses one of them has no filter at all for that configuration"""
+    from sa.ranges import Ranges
+    spec = "bloomfilter:BloomFilter.__init__"
+    mod, fn = rl.get(ctx, spec)
+    ps = param_names(fn)
+    if len(ps) < 3:
+        raise AnalysisError("BloomFilter.__init__ signature changed: %s" % ps)
+    size, fc = ps[1], ps[2]
+    ra = Ranges(ctx.repo, mod, fn, {size: ISet.top(), fc: ISet.top()})
+    cfg = cfg_of(fn)
+    exits = [n.id for n in cfg.returns()] or [cfg.exit_return]
+    out = []
+    for key, need, label in ((size, ISet.range(1, 36000), "size"), (fc, ISet.range(1, 50), "function count")):
+        acc = ra.union_at(exits, key)
+        if need.issubset(acc):
+            out.append(ctx.ok(spec, "%s: every value in %s reaches the end of the constructor" % (label, need.describe({})), fn, mod, key="domain:" + key))
+        elif ra.uninterpreted:
+            out.append(ctx.err(spec, "cannot decide the accepted %s: %s" % (label, ra.uninterpreted[0][1]), fn, mod))
+        else:
+            w = need.minus(acc).witness((50, 36000, 1))
+            out.append(ctx.bad(spec, "%s = %s is refused although BIP37 allows it (accepted: %s)" % (label, w, acc.describe({})), fn, mod, key="domain:" + key,
+                               detail={"witness_value": str(w)}))
+    return out
+
+
 OBLIGATIONS = [
     ("C18.1", "TABLE", c18_1),
     ("C18.2", "DATAFLOW", c18_2),
@@ -460,5 +530,7 @@ OBLIGATIONS = [
     ("C18.5", "BITS", c18_5),
     ("C18.6", "LAYOUT", c18_6),
     ("C18.7", "DATAFLOW", c18_7),
+    ("C18.8", "COUNT per-iteration", c18_8),
+    ("C18.9", "RANGE domain", c18_9),
 ]
 FLOORS = {"C18.1": 8, "C18.2": 4, "C18.3": 3, "C18.4": 6, "C18.5": 3, "C18.6": 3, "C18.7": 3}
